@@ -112,14 +112,14 @@ def deep_state(system):
     return out
 
 
-def first_diff(a, b, path=''):
+def first_diff(a, b, path='', ftol=0.0):
     if type(a) != type(b):
         return f'{path}: type {type(a).__name__} vs {type(b).__name__}'
     if isinstance(a, dict):
         for k in sorted(set(a) | set(b), key=str):
             if k not in a or k not in b:
                 return f'{path}.{k}: present only on one side'
-            d = first_diff(a[k], b[k], f'{path}.{k}')
+            d = first_diff(a[k], b[k], f'{path}.{k}', ftol)
             if d:
                 return d
         return None
@@ -127,12 +127,17 @@ def first_diff(a, b, path=''):
         if len(a) != len(b):
             return f'{path}: length {len(a)} vs {len(b)}'
         for i, (x, y) in enumerate(zip(a, b)):
-            d = first_diff(x, y, f'{path}[{i}]')
+            d = first_diff(x, y, f'{path}[{i}]', ftol)
             if d:
                 return d
         return None
     if isinstance(a, float):
-        return None if (a == b or (np.isnan(a) and np.isnan(b))) else f'{path}: {a!r} vs {b!r}'
+        ok = a == b or (np.isnan(a) and np.isnan(b)) or (ftol > 0 and abs(a - b) <= ftol * max(abs(a), abs(b), 1e-300))
+        return None if ok else f'{path}: {a!r} vs {b!r}'
+    if ftol > 0 and isinstance(a, str) and path.endswith('added_error'):
+        fa, fb = float(a), float(b)
+        ok = fa == fb or (np.isnan(fa) and np.isnan(fb)) or abs(fa - fb) <= ftol * max(abs(fa), abs(fb), 1e-300)
+        return None if ok else f'{path}: {a} vs {b}'
     return None if a == b else f'{path}: {a!r} vs {b!r}'
 
 
@@ -252,14 +257,14 @@ def run_case(ctx, res, spec, lines, post, field=False):
                     o.fit(max_iter=2, num_refine=25, max_tol=-np.inf, update_bounds=False)
                     cont.append(deep_state(o))
                 np.random.set_state(st)
-                dfirst = first_diff(cont[0], cont[1])
+                dfirst = first_diff(cont[0], cont[1], ftol=1e-10)
                 if dfirst:
                     res.failures.append({'kind': 'resumed-training-differs', 'input': {**info, 'iteration': it + 1},
                                          'observed': dfirst})
                 # and the live object itself continues identically
                 np.random.set_state(st)
                 system.fit(max_iter=2, num_refine=25, max_tol=-np.inf, update_bounds=False)
-                dlive = first_diff(deep_state(system), cont[1])
+                dlive = first_diff(deep_state(system), cont[1], ftol=1e-10)
                 if dlive:
                     res.failures.append({'kind': 'resumed-training-differs-from-uninterrupted', 'input': {**info, 'iteration': it + 1},
                                          'observed': dlive})
